@@ -127,6 +127,18 @@ def m_char_to_digit(ex, n, a, f):
             return some(ex, rt, int(chr(c), radix))
         except ValueError:
             return none(ex, rt)
+    if isinstance(radix, int) and 2 <= radix <= 36:
+        # symbolic character: fork on the digit classes of the radix
+        cb = to_bv(c, 32)
+        nd = min(radix, 10)
+        if ex.branch(z3.And(z3.UGE(cb, 48), z3.ULE(cb, 48 + nd - 1)), 'to_digit-dec'):
+            return some(ex, rt, cb - 48)
+        if radix > 10:
+            if ex.branch(z3.And(z3.UGE(cb, 97), z3.ULE(cb, 97 + radix - 11)), 'to_digit-lower'):
+                return some(ex, rt, cb - 87)
+            if ex.branch(z3.And(z3.UGE(cb, 65), z3.ULE(cb, 65 + radix - 11)), 'to_digit-upper'):
+                return some(ex, rt, cb - 55)
+        return none(ex, rt)
     raise Unsupported("to_digit symbolic")
 
 
